@@ -114,7 +114,7 @@ Section Rollback.
       + rewrite count_none. split; [lia | congruence].
     - destruct (as_real v) as [x|]; [|discriminate]. cbv zeta.
       destruct (pos _); intro E; inversion E; subst; (split; [simpl; lia | congruence]).
-    - destruct v as [x|s|b|]; try (intro E; inversion E; subst; split; [simpl; lia | reflexivity]).
+    - destruct v as [x|s|b| |l]; try discriminate; try (intro E; inversion E; subst; split; [simpl; lia | reflexivity]).
       destruct (nisnan x); [|discriminate]. intro E; inversion E; subst.
       split; [simpl; lia | reflexivity].
   Qed.
